@@ -21,10 +21,72 @@ EXPLANATION = (
     "every store to the mesh size is multiplier ** exponent (or a copy of the other mesh-size slot); multiplier == 2, cap <= 0, init <= cap "
     "from the ini files, so the size is a power of two <= 1. R3 every store to the search exponent is min(., m*k - n) with k >= 1, n >= 0 "
     "(ini), hence <= m for m <= 0; the search mesh size is multiplier ** that exponent. R4 the tol_mesh message is guarded by mesh_size < "
-    "tol_mesh. Decides the update structure on all paths, for every option setting except the tabled experimental option."
+    "tol_mesh. R5 coherence dataflow (rules/meshflow.py): every read of self.mesh_size / OS[mesh_size] in the methods reachable from optimize "
+    "sees multiplier ** exponent computed after the last store to the exponent, on all paths (method summaries, flag-conditional coherence)."
+    " Decides the update structure on all paths, for every option setting except the tabled experimental option."
 )
 
 EXP = "mesh_size_integer"
+
+
+def _in_loop(fn, stmt) -> bool:
+    cfg = cfg_of(fn)
+    n = cfg.node_of(stmt)
+    return n is None or bool(cfg.in_loop(n.id))
+
+
+def _loop_callers(prog, R):
+    """(callee, call) pairs for BADS methods called from inside the main loop of optimize (transitively)."""
+    opt = R.optimize
+    cfg = cfg_of(opt)
+    seeds = []
+    for call, targets in prog.calls_in(opt):
+        n = cfg.node_of(call)
+        if n is not None and cfg.in_loop(n.id):
+            seeds += [t for t in targets if hasattr(t, "node")]
+    out, seen = [], set()
+    while seeds:
+        f = seeds.pop()
+        if f in seen:
+            continue
+        seen.add(f)
+        out.append((f, None))
+        for call, targets in prog.calls_in(f):
+            seeds += [t for t in targets if hasattr(t, "node") and getattr(t, "cls", None) is R.bads]
+    return out
+
+
+def _deref(prog, fn, expr):
+    """canonical text of ``expr`` with local names replaced by their unique defining expression."""
+    import copy
+
+    class D(ast.NodeTransformer):
+        def __init__(self):
+            self.depth = 0
+
+        def visit_Subscript(self, node):
+            if not isinstance(node.value, ast.Name):
+                node.value = self.visit(node.value)
+            node.slice = self.visit(node.slice)
+            return node
+
+        def visit_Attribute(self, node):
+            if not isinstance(node.value, ast.Name):
+                node.value = self.visit(node.value)
+            return node
+
+        def visit_Name(self, node):
+            if isinstance(node.ctx, ast.Load) and self.depth < 4:
+                defs = reaching_assignments(prog, fn, node.id, expr)
+                if len(defs) == 1 and defs[0] is not None and not isinstance(defs[0], ast.Name):
+                    self.depth += 1
+                    try:
+                        return self.visit(copy.deepcopy(defs[0]))
+                    finally:
+                        self.depth -= 1
+            return node
+
+    return canon(D().visit(copy.deepcopy(expr)))
 
 
 def check(ctx):
@@ -60,6 +122,10 @@ def check(ctx):
         me = "self." + EXP
         if kind == "assign" and canon(v) == "OPT[init_mesh_size_integer]" and fn is R.init_optim_state:
             ctx.ok(fn, s, "initialised from options['init_mesh_size_integer']")
+            continue
+        if kind == "assign" and canon(v) == "OPT[init_mesh_size_integer]" and fn not in (poll, R.search_step, R.optimize) and not _in_loop(fn, s) \
+                and not any(c is fn for c, _ in _loop_callers(prog, R)):
+            ctx.ok(fn, s, "re-initialised from options['init_mesh_size_integer'] in run set-up (outside the iteration loop)")
             continue
         # normal forms
         delta, capped = None, False
@@ -144,7 +210,7 @@ def check(ctx):
         for t, v, s, kind in iter_stores(fn.node):
             ct = canon(t)
             if ct in slots and fn.cls is R.bads:
-                cv = canon(v)
+                cv = _deref(prog, fn, v)
                 ok2 = cv in good_pow or (cv in slots and cv != ct)
                 ctx.check(ok2, fn, s, f"{ct} <- {cv}", f"the mesh size is set to '{cv}', not poll_mesh_multiplier ** mesh exponent", construct=f"{ct} <- {cv[:60]}")
     ctx.check(mult == 2, ini.advanced.path, None, "ini: poll_mesh_multiplier = 2", f"poll_mesh_multiplier default is {mult}, the mesh is no longer a power of two", construct=f"ini poll_mesh_multiplier={mult}")
@@ -165,7 +231,7 @@ def check(ctx):
         ctx.check(ok3, fn, s, "search exponent <- min(0 | itself, m*k - n)", f"the search mesh exponent is set to '{canon(v)[:70]}', not min(., mesh exponent * search_grid_multiplier - search_grid_number)", construct=f"OS[search_size_integer] <- {canon(v)[:70]}")
     ctx.check(k is not None and k >= 1 and n is not None and n >= 0, ini.advanced.path, None, f"ini: search_grid_multiplier = {k} >= 1, search_grid_number = {n} >= 0", f"ini constants k={k}, n={n} do not give m*k - n <= m", construct=f"ini search grid constants k={k} n={n}")
     for fn, t, v, s, kind in key_stores(prog, "OS", "search_mesh_size"):
-        cv = canon(v)
+        cv = _deref(prog, fn, v)
         ok4 = cv in ("(OPT[poll_mesh_multiplier] ** OS[search_size_integer])", "(float(OPT[poll_mesh_multiplier]) ** OS[search_size_integer])")
         ctx.check(ok4, fn, s, "search mesh size = multiplier ** search exponent", f"the search mesh size is '{cv[:60]}', not multiplier ** search exponent", construct=f"OS[search_mesh_size] <- {cv[:60]}")
 
@@ -181,7 +247,10 @@ def check(ctx):
                 ctx.check(canon(node.test) == "(OS[mesh_size] < OS[tol_mesh])", opt, node, "tol_mesh message under mesh_size < tol_mesh", f"the tol_mesh termination message is guarded by '{canon(node.test)}'", construct=f"tol_mesh guard {canon(node.test)}")
     if not found:
         ctx.missing(opt, "termination message naming tol_mesh")
-    # OS[mesh_size] is current at that test: refreshed by the poll step's last store / loop head
+    # ------------------------------------------------------------------ R5
+    from . import meshflow
+
+    meshflow.report(ctx, "R5", lambda fn, e, R: e == meshflow.POLL_E)
     ctx.assume("options are the shipped defaults unless the user overrides them; the tabled search_mesh_expand option is outside the property's option quantifier")
     ctx.assume("integer exponent arithmetic: +1/-1 steps keep the exponent integral")
 
